@@ -166,11 +166,95 @@ func init() {
 
 // minimal reflect shim: reflect.ValueOf(x).IsNil() for pointers, maps, slices, interfaces
 type reflVal struct{ x iface }
+type reflTyp struct{ t types.Type }
+
+func reflectKindOf(t types.Type) reflect.Kind {
+	switch u := t.Underlying().(type) {
+	case *types.Basic:
+		switch u.Kind() {
+		case types.Bool:
+			return reflect.Bool
+		case types.Int:
+			return reflect.Int
+		case types.Int8:
+			return reflect.Int8
+		case types.Int16:
+			return reflect.Int16
+		case types.Int32:
+			return reflect.Int32
+		case types.Int64:
+			return reflect.Int64
+		case types.Uint:
+			return reflect.Uint
+		case types.Uint8:
+			return reflect.Uint8
+		case types.Uint16:
+			return reflect.Uint16
+		case types.Uint32:
+			return reflect.Uint32
+		case types.Uint64:
+			return reflect.Uint64
+		case types.Uintptr:
+			return reflect.Uintptr
+		case types.Float32:
+			return reflect.Float32
+		case types.Float64:
+			return reflect.Float64
+		case types.String:
+			return reflect.String
+		}
+	case *types.Slice:
+		return reflect.Slice
+	case *types.Array:
+		return reflect.Array
+	case *types.Struct:
+		return reflect.Struct
+	case *types.Pointer:
+		return reflect.Ptr
+	case *types.Map:
+		return reflect.Map
+	case *types.Interface:
+		return reflect.Interface
+	case *types.Signature:
+		return reflect.Func
+	case *types.Chan:
+		return reflect.Chan
+	}
+	return reflect.Invalid
+}
 
 func init() {
 	extraRegs = append(extraRegs, func() {
 		externals["reflect.ValueOf"] = func(fr *frame, args []value) value {
 			return reflVal{args[0].(iface)}
+		}
+		// reflect.TypeOf(x).Kind(): the dynamic type's kind (used by the event merger to tell a
+		// slice payload from a single one)
+		externals["reflect.TypeOf"] = func(fr *frame, args []value) value {
+			a := args[0].(iface)
+			if a.t == nil {
+				return iface{}
+			}
+			rp := fr.i.prog.ImportedPackage("reflect")
+			if rp == nil || rp.Type("rtype") == nil {
+				panic(unsupported("reflect.TypeOf: reflect.rtype not loaded"))
+			}
+			var cell value = reflTyp{a.t}
+			return iface{t: types.NewPointer(rp.Type("rtype").Type()), v: &cell}
+		}
+		externals["(*reflect.rtype).Kind"] = func(fr *frame, args []value) value {
+			rt, ok := (*args[0].(*value)).(reflTyp)
+			if !ok {
+				panic(unsupported("reflect.Type.Kind on an unmodelled type"))
+			}
+			return uint(reflectKindOf(rt.t))
+		}
+		externals["(*reflect.rtype).String"] = func(fr *frame, args []value) value {
+			rt, ok := (*args[0].(*value)).(reflTyp)
+			if !ok {
+				return "?"
+			}
+			return rt.t.String()
 		}
 		externals["(reflect.Value).Pointer"] = func(fr *frame, args []value) value { return uintptr(0) }
 		externals["runtime.FuncForPC"] = func(fr *frame, args []value) value { var nilf *value; return nilf }
